@@ -161,9 +161,19 @@ def routeFrom (cs : Bool) (fs : FS) (urlPath : Bytes) : List Rule → Nat → Ou
     | .err500 => .err500
     | .sent f => .sent i f
 
+/-- A path with non-ASCII bytes is inside the model when Go's Unicode-aware `strings.ToLower`
+cannot matter: every rule is a catch-all without exceptions (no prefix comparison of lowered
+text), nothing is trimmed, and the bytes the extension is compared with are ASCII.  (`splitPos`
+itself lowers ASCII letters only, like the code.) -/
+def nonAsciiModelled (urlPath : Bytes) (rules : List Rule) : Bool :=
+  trimRightSpDot urlPath == urlPath &&
+  rules.all fun r => (r.path == [slash] || r.path.isEmpty) && r.except.isEmpty &&
+    isAscii (urlPath.reverse.take r.ext.length)
+
 /-- `Handler.ServeHTTP`: which rule, if any, sends the request to its responder -/
 def route (cs : Bool) (fs : FS) (urlPath : Bytes) (rules : List Rule) : Outcome :=
-  if !isAscii urlPath || hasDotDot urlPath || (!urlPath.isEmpty && urlPath.head? != some slash) then .unmodelled
+  if (!isAscii urlPath && !nonAsciiModelled urlPath rules) || hasDotDot urlPath ||
+      (!urlPath.isEmpty && urlPath.head? != some slash) then .unmodelled
   else routeFrom cs fs urlPath rules 0
 
 /-! ### the environment -/
